@@ -17,21 +17,21 @@ type axiomInst struct {
 }
 
 type fnResult struct {
-	key       string
-	fn        *ssa.Function
-	con       *Contract
-	err       string // outside subset
-	attachErr string // the contract does not attach
-	obligs    []*Oblig
-	loops     int
-	rounds    int
-	inferred  []string
+	key           string
+	fn            *ssa.Function
+	con           *Contract
+	err           string // outside subset
+	attachErr     string // the contract does not attach
+	obligs        []*Oblig
+	loops         int
+	rounds        int
+	inferred      []string
 	usedContracts []string
 	usedTrusted   []string
 	uncontracted  []string
-	srcHash   string
-	returns   int
-	covers    []*Oblig
+	srcHash       string
+	returns       int
+	covers        []*Oblig
 }
 
 func (e *Engine) newCtx(fn *ssa.Function, opts *fnOpts, st *fnState) *FnCtx {
@@ -175,6 +175,14 @@ func (e *Engine) srcHashOf(fn *ssa.Function) string {
 
 // verifyFunc generates and (unless dry) discharges the obligations of one function.
 func (e *Engine) verifyFunc(fn *ssa.Function, opts *fnOpts, cfg *solverCfg) *fnResult {
+	return e.verifyFunc2(fn, opts, cfg, true)
+}
+
+func (e *Engine) genFunc(fn *ssa.Function, opts *fnOpts, cfg *solverCfg) *fnResult {
+	return e.verifyFunc2(fn, opts, cfg, false)
+}
+
+func (e *Engine) verifyFunc2(fn *ssa.Function, opts *fnOpts, cfg *solverCfg, solve bool) *fnResult {
 	res := &fnResult{key: e.displayKey(fn), fn: fn, con: e.contractFor(fn), srcHash: e.srcHashOf(fn)}
 	st := &fnState{cands: map[int][]*candidate{}}
 	// pass 1: discover heaps
@@ -266,7 +274,7 @@ func (e *Engine) verifyFunc(fn *ssa.Function, opts *fnOpts, cfg *solverCfg) *fnR
 		o := &Oblig{Name: res.key + "/cover/requires", Kind: "cover", Goal: "true", Prefix: c.requiresPrefix(), Fn: res.key, Cover: true, ctx: c}
 		res.covers = append(res.covers, o)
 	}
-	if cfg != nil {
+	if solve {
 		solveObligs(res.obligs, cfg)
 		if len(res.covers) > 0 {
 			solveObligs(res.covers, cfg)
